@@ -14,6 +14,7 @@ FUNCTIONS = [
     "safeds_stubgen.stubs_generator._stub_string_generator:StubsStringGenerator._get_class_in_package",
     "safeds_stubgen.stubs_generator._stub_string_generator:StubsStringGenerator._add_to_imports",
     "safeds_stubgen.api_analyzer.cli._cli:_run_stub_generator",
+    "safeds_stubgen.docstring_parsing._docstring_parser:DocstringParser._griffe_annotation_to_api_type",
 ]
 EXPLANATION = (
     "What is decided is the part of the statement that is the repository's own responsibility: no exception escapes "
@@ -81,4 +82,12 @@ def plan(tier):
         CH("reexport_choice", "harness.c08", "shortest_reexport", [f"0:{a},1:{b}" for a in range(2) for b in range(2)], timeout=t,
            desc="shortest-re-export selection never raises (name / alias / star / alias+star imports in 2-3 packages)"),
         CH("cli", "harness.c10", "api_file_name", [""], timeout=t, desc="API file written before generation; stage order"),
+        CH("docstring_types", "harness.c01doc", "docstring_types",
+           [f"0:{st},1:{n},2:{j}" + sfx for st in range(3) for n in range(4) for j in range(3)
+            for sfx in ([f",3:{x}" for x in range(3)] if n == 1 and j == 0 else [""])
+            if not (n == 0 and j) and (tier == "thorough" or ((st == 0 or n < 2) and not (n == 3 and j == 2)))], timeout=t,
+           desc="docstring type texts (unions / or / comma lists of names, constants, subscripts, tuples, 'optional') are "
+                "translated without exception and within the time budget",
+           stubs=["griffe Docstring of an empty function as the name-resolution scope", "griffe.parse_annotation runs natively (outside the tracer)"],
+           symbolic="shape selectors of the type-text grammar"),
     ]
